@@ -278,8 +278,14 @@ func runHistory(res *vh.Result, tr *vh.Trace, src string, hist []Step) {
 						res.Inc("concurrent_add_b_blocked", 1)
 					}
 					close(ga.release)
-					<-doneA
-					<-doneB
+					for _, d := range []chan struct{}{doneA, doneB} {
+						select {
+						case <-d:
+						case <-time.After(10 * time.Second):
+							// an Add that never returns: the pool's lock is held by a call that panicked or never ends
+							panic(fmt.Sprintf("Pool.Add does not return (other producer: %v %v)", panA, panB))
+						}
+					}
 					if panA != nil || panB != nil {
 						panic(fmt.Sprint(panA, panB))
 					}
